@@ -21,6 +21,7 @@ RULE = (
     "parsed back into fields (mc/vcorr) and compared with the reference record built from the source documents; extended "
     "conditions by truth table. non-trivial = every case (each has >= 1 sub-query and an aggregation); distinct by (documents, configuration)."
 )
+RULE += (" " + 'Sub-space (iv): a correlation rule object that was resolved and converted in one collection is placed into a second collection whose referenced rules have other content; the result must equal a fresh load of that collection. Field mappings are also bound to a log-source rule condition and applied to chains of correlation rules; boundary percentiles and counts (0, 100) are included.')
 ASSUMPTIONS = ["stand-alone conversion of a referenced rule (same pipeline, fresh objects) is the reference for its sub-query text (its meaning is C01's subject)",
                "timespan unit lengths: s=1 m=60 h=3600 d=86400 w=604800 M=2629746 y=31556952 seconds"]
 TYPES = ["event_count", "value_count", "temporal", "temporal_ordered", "value_sum", "value_avg", "value_percentile", "value_median"]
